@@ -198,7 +198,8 @@ class SFile(object):
         if mode == "r+" and not os.path.exists(self._filename):
             # path doesn't exist but we want to append.  Change the
             # mode to write
-            mode = "w+"
+            mode = "w"
+            self._mode = mode
 
         if self._mode[0] == "r":
             # if reading:
